@@ -82,6 +82,9 @@ const (
 	// TgAbsent is an address with no account behind it (a zero-value CALL to it does nothing at all on the
 	// scenario forks; a value-bearing one creates the account)
 	TgAbsent
+	// TgEmptyAcct is an account that exists in the pre-state with no balance, nonce or code: touching it (zero-value
+	// CALL, STATICCALL) makes the end-of-transaction finalisation delete it - unless the touching frame failed
+	TgEmptyAcct
 )
 
 type Frame struct {
@@ -173,6 +176,8 @@ func (f *Frame) String() string {
 			out += ")->failing-precompile "
 		case TgAbsent:
 			out += ")->absent "
+		case TgEmptyAcct:
+			out += ")->empty-account "
 		}
 	}
 	if f.Post != ENone {
@@ -248,6 +253,7 @@ var (
 	// BadPrecompile: see TgBadPrecompile
 	BadPrecompile = common.BytesToAddress([]byte{8})
 	AbsentAddr    = gen.Absent
+	EmptyAcct     = gen.Empty
 )
 
 func FrameAddr(id int) common.Address { return world.ContractAddr(100 + id) }
@@ -449,6 +455,8 @@ func compileFrame(f *Frame, fork world.Fork, static bool, depth int, shared bool
 				to = BadPrecompile
 			case TgAbsent:
 				to = AbsentAddr
+			case TgEmptyAcct:
+				to = EmptyAcct
 			}
 			p.Push(32).Push(outOff).Push(uint64(c.InLen)).Push(0)
 			if c.Kind == KCall || c.Kind == KCallCode {
@@ -523,6 +531,7 @@ func (s *Scn) Case() *world.Case {
 	accounts := []world.Account{
 		{Addr: world.Origin, Balance: (*hexutil.Big)(new(big.Int).Exp(big.NewInt(10), big.NewInt(18), nil)), Nonce: 5},
 		{Addr: Codeless, Balance: world.Big(12345)},
+		{Addr: EmptyAcct},
 	}
 	s.Walk(func(f *Frame, static bool, depth int, parent *Frame) {
 		if parent != nil && parent.Call.Kind.IsCreate() {
